@@ -35,7 +35,7 @@ PROPS["C11"].update(
 
 # properties not claimed yet (filled while the framework is being built)
 NOT_APPLICABLE = {("C%02d" % i): "monitor not built yet (work in progress; see DESIGN.md for the plan)" for i in range(1, 21)}
-HOOK_COMMITS = []
+HOOK_COMMITS = ["1fddc2d"]
 
 PROPS["C12"] = dict(
     race=True,
@@ -223,4 +223,28 @@ PROPS["C03"] = dict(
                 "logging publisher front."),
     level_note="Trusted: libp2p key parsing (to decide semantic identity of a mutant); the front faithfully replaces only the head response.",
     assumptions=["crafted signature malleability (e.g. ECDSA high-S re-encoding) is not generated"],
+)
+
+PROPS["C09"] = dict(
+    race=True,
+    shards={"quick": 8, "thorough": 16},
+    level="exploration",
+    exhaustive=False,
+    design_ref="DESIGN.md §3 C09",
+    technique="runtime monitor: reference LRU+allow model (exhaustive at small capacities via a verif-tagged export), sequential and porcupine-checked concurrent histories on the real Receiver, two-host pubsub run",
+    rule=("lru-exhaustive: ALL operation sequences of length 6 (quick) / 7 (thorough) over update/remove x 5 symbols at capacities 1..4 against a "
+          "15-line reference list (return value and length after every operation); lru-long: 10 000-step seeded sequences at capacities 1..4 "
+          "and 64; receiver-history: seeded histories of 300..2000 Direct/UncacheCid operations over CID alphabets of 66..90 on the real "
+          "Receiver (allow-all / allow-none / predicate filters, IP filtering on/off, address lists mixing public/private/loopback/unspecified/"
+          "localhost/DNS); every Direct carries a unique marker address so the stream read from Next identifies exactly which calls were "
+          "delivered; receiver-concurrent: 3 clients issuing Direct/UncacheCid around the eviction boundary, history checked with porcupine "
+          "against the same model; pubsub: three libp2p hosts on one gossip topic (publisher, relay with resend, receiver). "
+          "distinct_nontrivial = sampled distinct exhaustive sequences + history configurations."),
+    floors={"quick": {"evictions": 2000, "refresh_on_hit": 2000, "uncache_then_delivered": 100, "rejected_then_delivered": 100, "concurrent_histories": 20, "pubsub_runs_completed": 2, "seqs_with_eviction_and_hit": 100000}},
+    watchdog_s={"quick": 900, "thorough": 7200},
+    level_text=("Exploration (the small-capacity LRU part is exhaustive up to the stated length): delivery decisions of the real receiver are "
+                "compared call by call with a reference model of 'allowed and not among the 64 most recently seen, un-removed CIDs'; "
+                "concurrent histories are checked for linearizability; pubsub attribution and self-republication are observed on real hosts."),
+    level_note="Trusted: the reference model; porcupine; gossipsub delivering the relay's own publication to its own subscription before later messages.",
+    assumptions=["race reports in go-libipni frames are recorded as diagnostics (the property does not claim race freedom)"],
 )
